@@ -3,6 +3,7 @@ package rules
 import (
 	"go/token"
 	"go/types"
+	"strings"
 
 	"golang.org/x/tools/go/ssa"
 
@@ -114,4 +115,123 @@ func c09ResultOwned(c *Ctx, p *core.Prog) {
 		}
 	}
 	r.Floor("result-owned", n, 3, "slice/map results of Parser and Tokenizer methods")
+}
+
+// captured-node: a function literal that outlives its creator (it is returned, or stored in a struct / interface)
+// and captures an AST node that the creator obtained from the library itself (a parse call, a pool Get) will use
+// that one node every time it runs: grafted into several trees, the node is shared, and releasing one tree clears
+// and pools nodes that another live tree still references. Nodes received as parameters are the caller's to share.
+func c09CapturedNode(c *Ctx, p *core.Prog) {
+	r := c.R
+	r.Rule("captured-node", "an escaping function literal (returned or stored) does not capture a variable holding an AST node that its creator obtained from a library call (parser / pool); such a node must be created inside the literal, once per run")
+	astPk := p.Pkg("pkg/sql/ast")
+	if astPk == nil {
+		return
+	}
+	isNodeType := func(t types.Type) bool {
+		if ptr, ok := t.Underlying().(*types.Pointer); ok {
+			t = ptr.Elem()
+		}
+		n := core.NamedOf(t)
+		if n == nil || n.Obj().Pkg() != astPk.Types {
+			return false
+		}
+		switch n.Underlying().(type) {
+		case *types.Interface, *types.Struct:
+			return true
+		}
+		return false
+	}
+	// does the value stored in the captured cell come from a call (and not from a parameter)?
+	var fromCall func(v ssa.Value, depth int) *ssa.Call
+	fromCall = func(v ssa.Value, depth int) *ssa.Call {
+		if depth > 5 {
+			return nil
+		}
+		switch x := v.(type) {
+		case *ssa.Call:
+			if f := x.Call.StaticCallee(); f != nil && core.InModule(f) {
+				return x
+			}
+		case *ssa.Extract:
+			return fromCall(x.Tuple, depth+1)
+		case *ssa.MakeInterface:
+			return fromCall(x.X, depth+1)
+		case *ssa.ChangeInterface:
+			return fromCall(x.X, depth+1)
+		case *ssa.TypeAssert:
+			return fromCall(x.X, depth+1)
+		case *ssa.Phi:
+			for _, e := range x.Edges {
+				if c := fromCall(e, depth+1); c != nil {
+					return c
+				}
+			}
+		}
+		return nil
+	}
+	n := 0
+	for _, fn := range p.ModuleFuncs() {
+		if !strings.Contains(core.FnName(fn), ".") || !core.InPkgs(fn, "pkg/transform", "pkg/gosqlx", "pkg/sql/ast", "pkg/sql/parser", "pkg/formatter", "pkg/linter", "pkg/sql/security", "pkg/lsp") {
+			continue
+		}
+		seq := 0
+		for _, b := range fn.Blocks {
+			for _, in := range b.Instrs {
+				mc, ok := in.(*ssa.MakeClosure)
+				if !ok {
+					continue
+				}
+				// escaping: used other than as the callee of a direct call / defer / go in this function
+				escapes := false
+				for _, ref := range core.Referrers(mc) {
+					switch x := ref.(type) {
+					case *ssa.DebugRef:
+					case *ssa.Call:
+						if x.Call.Value != ssa.Value(mc) {
+							escapes = true
+						}
+					case *ssa.Defer:
+						if x.Call.Value != ssa.Value(mc) {
+							escapes = true
+						}
+					case *ssa.Go:
+						if x.Call.Value != ssa.Value(mc) {
+							escapes = true
+						}
+					default:
+						escapes = true
+					}
+				}
+				if !escapes {
+					continue
+				}
+				lit, _ := mc.Fn.(*ssa.Function)
+				for i, bnd := range mc.Bindings {
+					cell, ok := bnd.(*ssa.Alloc)
+					if !ok || lit == nil || i >= len(lit.FreeVars) {
+						continue
+					}
+					if !isNodeType(core.Deref(cell.Type())) {
+						continue
+					}
+					n++
+					var origin *ssa.Call
+					for _, ref := range core.Referrers(cell) {
+						if st, ok := ref.(*ssa.Store); ok && st.Addr == ssa.Value(cell) {
+							if c := fromCall(st.Val, 0); c != nil {
+								origin = c
+							}
+						}
+					}
+					if origin == nil {
+						continue
+					}
+					seq++
+					r.Violate("captured-node", core.FnName(fn)+sprintf("|capture#%d", seq), p.FnPos(fn), "the function literal created here escapes and captures `"+lit.FreeVars[i].Name()+"`, an AST node obtained from "+origin.Call.StaticCallee().Name()+"() when the literal was created: every run of the literal uses that same node, so trees it is applied to share it (releasing one corrupts the others)")
+				}
+			}
+		}
+	}
+	r.OK("captured-node", "scan", "-", sprintf("%d node-typed captures of escaping function literals examined", n))
 }
